@@ -798,7 +798,7 @@ def _dotted(node):
 
 # translation context: how `self.attr` is written (Weaver: one of the eight fields; other classes: a variable "self.attr" bound by
 # the caller of the interpreter), and which names are locals of the function being translated (for `local.attr`)
-_CTX = {"self_attrs": False, "locals": set()}
+_CTX = {"self_attrs": False, "locals": set(), "allow_while": False}
 
 
 def _gexpr(e, where):
@@ -866,6 +866,8 @@ def _gexpr(e, where):
             parts = [rec(x) if x is not None else "GNone" for x in (s.lower, s.upper, s.step)]
             return "(GSlice %s %s %s %s)" % (rec(e.value), parts[0], parts[1], parts[2])
         return "(GIdx %s %s)" % (rec(e.value), rec(s))
+    if isinstance(e, ast.Call) and isinstance(e.func, ast.Name) and e.func.id == "next":
+        raise TranslateError("%s: next() inside an expression (only `v = next(it[, d])` statements are inside the grammar)" % where)
     if isinstance(e, ast.Call):
         args = []
         kws = []
@@ -925,7 +927,8 @@ def _gstmts(body, where):
         w = "%s:%d" % (where, st.lineno)
         if isinstance(st, ast.Expr) and isinstance(st.value, ast.Constant) and isinstance(st.value.value, str):
             continue   # docstring
-        if isinstance(st, ast.Assign) and len(st.targets) == 1:
+        is_next = (isinstance(st, ast.Assign) and isinstance(st.value, ast.Call) and isinstance(st.value.func, ast.Name) and st.value.func.id == "next")
+        if isinstance(st, ast.Assign) and len(st.targets) == 1 and not is_next:
             t = st.targets[0]
             lhs = [_glhs(x, w) for x in t.elts] if isinstance(t, ast.Tuple) else [_glhs(t, w)]
             out.append("SAssign %s %s" % (_glist(lhs), _gexpr(st.value, w)))
@@ -935,6 +938,16 @@ def _gstmts(body, where):
             out.append("SRaise %s" % _cstr(st.exc.func.id))
         elif isinstance(st, ast.Return) and st.value is not None:
             out.append("SReturn %s" % _gexpr(st.value, w))
+        elif _CTX["allow_while"] and isinstance(st, ast.While) and not st.orelse:
+            out.append("SWhile %s %s" % (_gexpr(st.test, w), _gstmts(st.body, where)))
+        elif _CTX["allow_while"] and isinstance(st, ast.Break):
+            out.append("SBreak")
+        elif isinstance(st, ast.Assign) and len(st.targets) == 1 and isinstance(st.targets[0], ast.Name) and isinstance(st.value, ast.Call) \
+                and isinstance(st.value.func, ast.Name) and st.value.func.id == "next" and st.value.args and isinstance(st.value.args[0], ast.Name) \
+                and not st.value.keywords and len(st.value.args) <= 2:
+            # v = next(it[, default]) advances the iterator: written as the pair assignment v, it = next!(it[, default])
+            it = st.value.args[0].id
+            out.append("SAssign [(LVar %s); (LVar %s)] (GCall \"next!\" %s [])" % (_cstr(st.targets[0].id), _cstr(it), _glist(_gexpr(a_, w) for a_ in st.value.args)))
         elif isinstance(st, ast.Expr) and isinstance(st.value, ast.Call) and isinstance(st.value.func, ast.Attribute) \
                 and isinstance(st.value.func.value, ast.Name) and st.value.func.value.id in _CTX["locals"]:
             # v.m(args) as a statement: the object bound to v may be modified in place; the name is rebound to the value the
@@ -1080,7 +1093,8 @@ def _fun_row(fn, fname, bound):
         if isinstance(sub, ast.Name) and isinstance(sub.ctx, (ast.Store, ast.Del)):
             local_names.add(sub.id)
         if isinstance(sub, (ast.FunctionDef, ast.Lambda, ast.ClassDef, ast.Import, ast.ImportFrom, ast.Global, ast.Nonlocal,
-                            ast.With, ast.Try, ast.While, ast.NamedExpr, ast.ListComp, ast.GeneratorExp, ast.Delete)):
+                            ast.With, ast.Try, ast.NamedExpr, ast.ListComp, ast.GeneratorExp, ast.Delete)) \
+                or (isinstance(sub, ast.While) and not _CTX["allow_while"]):
             raise TranslateError("%s:%d: %s in %s outside the glue grammar" % (fname, sub.lineno, type(sub).__name__, fn.name))
     clash = local_names & bound
     if clash:
@@ -1091,7 +1105,7 @@ def _fun_row(fn, fname, bound):
 def _gen_fun_table(fname, funcs, defname, what):
     tree = ast.parse(_src(fname))
     imports, defs = _module_imports(tree, fname, funcs)
-    bound = {b for _, _, b in imports} | set(defs) | {"len", "range", "zip", "int", "abs", "min", "max"}
+    bound = {b for _, _, b in imports} | set(defs) | {"len", "range", "zip", "int", "abs", "min", "max", "next", "iter"}
     rows = []
     for name in funcs:
         fn = _find_fun(tree, name)
@@ -1118,6 +1132,19 @@ def gen_match_glue():
 def gen_process_glue():
     return _gen_fun_table("process.py", ["interpolate", "repeat", "trend", "truncate", "normalize", "spline_smooth"],
                           "process", "Functions of process.py")
+
+
+@target("ScanGlue")
+def gen_scan_glue():
+    save = dict(_CTX)
+    _CTX["allow_while"] = True
+    try:
+        return _gen_fun_table("sorted_array_utils.py", ["find_closest_lower_equal_element_indices_to_values",
+                                                        "find_closest_higher_equal_element_indices_to_values",
+                                                        "find_closest_lower_or_higher_element_indices_to_values"],
+                              "scan", "The three two-pointer scans of sorted_array_utils.py (while loops over explicit iterators)")
+    finally:
+        _CTX.update(save)
 
 
 @target("UtilsGlue")
